@@ -6,9 +6,9 @@ use bincode::{Decode, Encode};
 
 pub use crate::dictionary::connector::dual_connector::DualConnector;
 pub use crate::dictionary::connector::matrix_connector::MatrixConnector;
-pub use crate::dictionary::connector::raw_connector::RawConnector;
 #[cfg(feature = "verif")]
 pub(crate) use crate::dictionary::connector::raw_connector::scorer::verif_scorer_eval;
+pub use crate::dictionary::connector::raw_connector::RawConnector;
 use crate::dictionary::mapper::ConnIdMapper;
 
 pub trait Connector {
